@@ -254,17 +254,17 @@ example : slackOf 500001 (5000000 + 500001 + 2 * 500001 * 34) 10 = 144500089 := 
 The ghost allowances of `C10_quota_whole_day_partial` are bounded along every tick-only run: the plan of a day that
 starts at a reset has `n ≤ period` periods, `dc = 0`, `DAY - 10 s - 3 eps ≤ rc ≤ DAY`; at most `n + 1` cycles are
 completed, hence `j ≤ 5 s + (6 * period + 9) * eps`, `u ≤ 5 s + (4 * period + 8) * eps`.  With
-  `slackLo period eps = 15 s + period * (10 s + 1 µs) + (7 * period + 12) * eps`   (≤ 156.00001 s),
-  `slackHi period eps = 15 s + (4 * period + 9) * eps`                              (≤ 39.5 s)
+  `slackLo period eps = 15 s + period * (10 s + 1 µs) + (7 * period + 12) * eps`   (≤ 156.00001 s at eps = 0.5 s, ≤ 164.20001 s at 0.6 s),
+  `slackHi period eps = 15 s + (4 * period + 9) * eps`                              (≤ 39.5 s / 44.4 s)
 the pump-on time of every whole day is within `[min daily 24h - slackLo, min daily 24h + slackHi]`. -/
 
 /-- C10, whole days, tick-only runs, unconditional in the settings: for EVERY daily duration ≥ 1 s (the dispatcher
 admits 1 s .. 48 h), period count 1..10, tank percentage, reset hour, already-elapsed duration ≥ 0, start instant (not the
 exact µs of a reset, see `C10_quota_whole_day_start_at_reset`), and every sequence of timer expiries handled at most
-`eps ≤ 0.5 s` late: every day of the run but the first (which starts when eco is entered) starts at a reset, and the
+`eps ≤ 0.6 s` late (the simulator's real runs show ≤ 0.5 s + a few µs; the correspondence checks ≤ 0.6 s on every run): every day of the run but the first (which starts when eco is entered) starts at a reset, and the
 pump-on time of every such day differs from `min daily 24h` by at most `slackLo` below and `slackHi` above — both
 below the property's 180 s.  (This is the day theorem applied inductively: it speaks about all the days of the run.) -/
-theorem C10_quota_whole_day (eps : Int) (p : Params) (evs : List Ev) (he : 0 ≤ eps) (he2 : eps ≤ 500000)
+theorem C10_quota_whole_day (eps : Int) (p : Params) (evs : List Ev) (he : 0 ≤ eps) (he2 : eps ≤ 600000)
     (hd : 1 ≤ p.dailyS) (hp1 : 1 ≤ p.period) (hp2 : p.period ≤ 10) (hel : 0 ≤ p.elapsedS)
     (hs : p.start < nextResetAt p.start p.resetHour) (hall : ∀ e ∈ evs, TickOK eps e) :
     (∀ r ∈ (ecoFinal eps (Loop.start eps p).1 evs).days.dropLast, r.full = true)
@@ -277,37 +277,40 @@ theorem C10_quota_whole_day (eps : Int) (p : Params) (evs : List Ev) (he : 0 ≤
   obtain ⟨hinv, hday⟩ := day_run eps p.period (p.dailyS * US) hst evs _
     (start_inv eps p he (by omega) (by omega) hs) (day_start eps p hst hel hs) hall
   have hsl := slack_le_180 p.period eps he he2 hp1 hp2
-  refine ⟨hday.hseq.2, ?_, hsl.1, hsl.2.2⟩
+  refine ⟨hday.hseq.2, ?_, hsl.1, hsl.2.2.1⟩
   intro r hr hfull
   exact day_bounds eps p.period (p.dailyS * US) r hst (hinv.common.hdays r hr) (hday.hdays r hr) hfull
 
-example : (0:Int) ≤ 500000 ∧ (1:Int) ≤ (⟨36000, 3, 1, 10, 0, 28800000000, 0⟩ : Params).dailyS
+example : (0:Int) ≤ 600000 ∧ (1:Int) ≤ (⟨36000, 3, 1, 10, 0, 28800000000, 0⟩ : Params).dailyS
     ∧ (⟨36000, 3, 1, 10, 0, 28800000000, 0⟩ : Params).start < nextResetAt 28800000000 0
     ∧ (∀ e ∈ List.replicate 20000 (Ev.tick 250000 1000 1000), TickOK 500000 e) :=
   ⟨by decide, by decide, by decide, fun e he => by
     rw [List.eq_of_mem_replicate he]; exact ⟨by decide, by decide, by decide, by decide, by decide, by decide⟩⟩
 
 /-- the closed-form slack: values at the corners of the quantifier -/
-theorem C10_slack_closed_form (per eps : Int) (he : 0 ≤ eps) (he2 : eps ≤ 500000) (hp1 : 1 ≤ per) (hp2 : per ≤ 10) :
+theorem C10_slack_closed_form (per eps : Int) (he : 0 ≤ eps) (he2 : eps ≤ 600000) (hp1 : 1 ≤ per) (hp2 : per ≤ 10) :
     slackLo per eps = 15 * US + per * (10 * US + 1) + (7 * per + 12) * eps
     ∧ slackHi per eps = 15 * US + (4 * per + 9) * eps
-    ∧ slackHi per eps ≤ slackLo per eps ∧ slackLo per eps ≤ 156 * US + 10 := by
+    ∧ slackHi per eps ≤ slackLo per eps ∧ slackLo per eps ≤ 164 * US + 200010
+    ∧ (eps ≤ 500000 → slackLo per eps ≤ 156 * US + 10) := by
   have hU : US = 1000000 := rfl
   have hsl := slack_le_180 per eps he he2 hp1 hp2
   have e1 : (7 * per + 12) * eps = 7 * (per * eps) + 12 * eps := by
     rw [Int.add_mul, Int.mul_assoc]
   have e2 : (4 * per + 9) * eps = 4 * (per * eps) + 9 * eps := by
     rw [Int.add_mul, Int.mul_assoc]
-  refine ⟨?_, ?_, hsl.1, hsl.2.1⟩
+  refine ⟨?_, ?_, hsl.1, ?_, ?_⟩
   · rw [e1, hU]; unfold slackLo; omega
   · rw [e2, hU]; unfold slackHi; omega
+  · rw [hU]; exact hsl.2.1
+  · intro h; rw [hU]; exact hsl.2.2.2 h
 
-example : slackLo 10 500000 = 156000010 ∧ slackHi 10 500000 = 39500000 ∧ slackLo 1 0 = 25000001 := by decide
+example : slackLo 10 500000 = 156000010 ∧ slackLo 10 600000 = 164200010 ∧ slackHi 10 600000 = 44400000 ∧ slackLo 1 0 = 25000001 := by decide
 
 /-- the ghost values in closed form (what was open in `C10_quota_whole_day_partial`): for every finished whole day,
 `n ≤ period`, `j ≤ 5 s + (6 * period + 9) * eps`, `u ≤ 5 s + (4 * period + 8) * eps`, the claimed bounds are
 `ub = daily + 10 s + eps` and `lb ≥ min daily (24 h - 10 s - 3 eps) - slackOf eps j n`, and the day is plain. -/
-theorem C10_ghosts_closed_form (eps : Int) (p : Params) (evs : List Ev) (he : 0 ≤ eps) (he2 : eps ≤ 500000)
+theorem C10_ghosts_closed_form (eps : Int) (p : Params) (evs : List Ev) (he : 0 ≤ eps) (he2 : eps ≤ 600000)
     (hd : 1 ≤ p.dailyS) (hp1 : 1 ≤ p.period) (hp2 : p.period ≤ 10) (hel : 0 ≤ p.elapsedS)
     (hs : p.start < nextResetAt p.start p.resetHour) (hall : ∀ e ∈ evs, TickOK eps e) :
     ∀ r ∈ (ecoFinal eps (Loop.start eps p).1 evs).days, r.plain = true ∧ (r.full = true →
